@@ -168,16 +168,14 @@ def sicnm(ae: nAE,
                 N = - dt * rparam.gamma * (Hvp + J)
                 Lambda = dt * rparam.gamma * (N - J)
                 lu = splu(Lambda)
-                if nt == 0:
-                    P = csc_array((np.ones(vsize), (lu.perm_r, np.arange(vsize))))
-                    Q = csc_array((np.ones(vsize), (np.arange(vsize), lu.perm_c)))
-                    # b_perm = np.concatenate([np.arange(vsize), lu.perm_r + vsize])
-                    # dx_perm = np.concatenate([np.arange(vsize), lu.perm_c + vsize])
-                    P_tilda = block_array([[EYE, ZERO], [ZERO, P]], format='csc')
-                    Q_tilda = block_array([[EYE, ZERO], [ZERO, Q]], format='csc')
+                # the factors depend on dt, J and Hvp: rebuild them for every step
+                P = csc_array((np.ones(vsize), (lu.perm_r, np.arange(vsize))))
+                Q = csc_array((np.ones(vsize), (np.arange(vsize), lu.perm_c)))
+                P_tilda = block_array([[EYE, ZERO], [ZERO, P]], format='csc')
+                Q_tilda = block_array([[EYE, ZERO], [ZERO, Q]], format='csc')
 
-                    L_tilda = block_array([[EYE, ZERO], [P @ N, lu.L]], format='csc')
-                    U_tilda = block_array([[EYE, -dt * rparam.gamma * Q], [ZERO, lu.U]], format='csc')
+                L_tilda = block_array([[EYE, ZERO], [P @ N, lu.L]], format='csc')
+                U_tilda = block_array([[EYE, -dt * rparam.gamma * Q], [ZERO, lu.U]], format='csc')
             else:
                 # full decomposition
                 tilde_J = block_array([[ZERO, EYE], [Hvp + J, J]])
